@@ -283,7 +283,18 @@ let run_case (c : sexp) =
              | Ok (tr', ret) ->
                Printf.printf "OP %d ok %s\n" i (pcell ret);
                cur := tr';
-               if full || i = nops - 1 then dump_tree tr') ops);
+               if full || i = nops - 1 then dump_tree tr') ops;
+       (* cross-check line: how many operations were applied and every number of the last good tree *)
+       (match (try find "digest" items with _ -> []) with
+        | [Atom "1"] ->
+          let applied = ref 0 in
+          let c2 = ref tr in
+          let st = ref false in
+          List.iter (fun o -> if not !st then match f_apply_op o !c2 with
+              | Err _ -> st := true
+              | Ok (t', _) -> c2 := t'; incr applied) ops;
+          Printf.printf "DIGEST %d %s\n" !applied (plist pcell (f_digest !c2))
+        | _ -> ()));
     Printf.printf "END\n"
   | L (Atom "backtest" :: Atom name :: items) ->
     Printf.printf "CASE %s\n" name;
